@@ -32,6 +32,7 @@ import (
 	"context"
 	"fmt"
 	"os"
+	"path/filepath"
 	"sync"
 
 	"github.com/tikv/pd/server/core"
@@ -54,16 +55,42 @@ var (
 	rsBaseErr  error
 )
 
-// rsBaseDir: one directory per process (removed by rsCleanup), one sub-directory per fixture.
+func rsParentDir() string {
+	if fi, err := os.Stat("/dev/shm"); err == nil && fi.IsDir() {
+		return "/dev/shm"
+	}
+	return os.TempDir()
+}
+
+// rsBaseDir: one directory per process (c06-ldb-<pid>-*, removed by rsCleanup), one
+// sub-directory per fixture.
 func rsBaseDir() (string, error) {
 	rsBaseOnce.Do(func() {
-		parent := os.TempDir()
-		if fi, err := os.Stat("/dev/shm"); err == nil && fi.IsDir() {
-			parent = "/dev/shm"
+		rsBase, rsBaseErr = os.MkdirTemp(rsParentDir(), fmt.Sprintf("c06-ldb-%d-", os.Getpid()))
+		if rsBaseErr != nil { // e.g. /dev/shm present but not writable: the run's scratch directory always is
+			rsBase, rsBaseErr = os.MkdirTemp(os.TempDir(), fmt.Sprintf("c06-ldb-%d-", os.Getpid()))
 		}
-		rsBase, rsBaseErr = os.MkdirTemp(parent, "c06-ldb-")
 	})
 	return rsBase, rsBaseErr
+}
+
+// rsSweep removes the directories of earlier processes that were killed before their
+// clean-up (the runner stops the other shards after a violation).
+func rsSweep() {
+	parent := rsParentDir()
+	ents, err := os.ReadDir(parent)
+	if err != nil {
+		return
+	}
+	for _, e := range ents {
+		var pid int
+		if n, _ := fmt.Sscanf(e.Name(), "c06-ldb-%d-", &pid); n != 1 || pid <= 0 {
+			continue
+		}
+		if _, err := os.Stat(fmt.Sprintf("/proc/%d", pid)); os.IsNotExist(err) {
+			os.RemoveAll(filepath.Join(parent, e.Name()))
+		}
+	}
 }
 
 func rsCleanup() {
